@@ -57,11 +57,15 @@ func (e *Engine) generate(completions Values) {
 func (e *Engine) setPrefix(completions Values) {
 	switch completions.PREFIX {
 	case "":
+		// At the very beginning of the line there is no word before
+		// the cursor: the one starting under it is not ours to replace.
+		if e.cursor.Pos() == 0 {
+			e.prefix = ""
+			return
+		}
+
 		// Select the character just before the cursor.
 		cpos := e.cursor.Pos() - 1
-		if cpos < 0 {
-			cpos = 0
-		}
 
 		bpos, _ := e.line.SelectBlankWord(cpos)
 
